@@ -434,6 +434,58 @@ impl<'tcx> Cx<'tcx> {
             other => Err(format!("window over {:?}", other)),
         }
     }
+    /// see the call site: `p` = [.., Seg { view: Some([E; n]), path: [F(i)] }] over an object U; returns the pointer to the sub-object
+    /// of U that occupies exactly the leaves of `want` starting at element i, viewed as `want`
+    fn sub_object_of_view(&self, st: &State<'tcx>, p: &Ptr<'tcx>, want: Ty<'tcx>) -> Option<Ptr<'tcx>> {
+        if p.win.is_some() || p.segs.len() < 2 {
+            return None;
+        }
+        let last = p.segs.last()?;
+        let (vty, i) = match (last.view, last.path.as_slice()) {
+            (Some(v), [PE::F(i)]) => (v, *i),
+            _ => return None,
+        };
+        let elem = match vty.kind() {
+            ty::Array(e, _) => *e,
+            _ => return None,
+        };
+        let mut base = p.clone();
+        base.segs.pop();
+        let uty = self.ptr_ty(st, &base).ok()?;
+        if self.leaf_count(uty) != self.leaf_count(vty) {
+            return None;
+        }
+        let (mut off, cnt) = (i * self.leaf_count(elem), self.leaf_count(want));
+        let mut t = uty;
+        let mut path = vec![];
+        loop {
+            if off == 0 && self.leaf_count(t) == cnt {
+                break;
+            }
+            let fs = self.field_tys(t)?;
+            let mut found = false;
+            let mut acc = 0usize;
+            for (j, f) in fs.iter().enumerate() {
+                let lc = self.leaf_count(*f);
+                if off >= acc && off + cnt <= acc + lc {
+                    path.push(PE::F(j));
+                    off -= acc;
+                    t = *f;
+                    found = true;
+                    break;
+                }
+                acc += lc;
+            }
+            if !found {
+                return None; // the range straddles two sub-objects
+            }
+        }
+        base.segs.last_mut()?.path.extend(path);
+        if t != want {
+            base.segs.push(Seg { view: Some(want), path: vec![] });
+        }
+        Some(base)
+    }
     fn elem_ptr(&self, p: &Ptr<'tcx>, i: usize) -> R<Ptr<'tcx>> {
         let (start, len) = p.win.ok_or("element of a non-slice pointer")?;
         if i >= len {
@@ -1149,6 +1201,12 @@ impl<'tcx> Cx<'tcx> {
                                     return Err(format!("pointer cast to unsized {:?}", inner));
                                 }
                                 if self.leaf_count(cur) < self.leaf_count(*inner) {
+                                    // A pointer to element i of a flat array VIEW of a struct (`&m_as_[S; 16][i * 4..]`.as_ptr()) seen as
+                                    // a larger type: if the leaves [off, off + k) are exactly one sub-object of the underlying struct,
+                                    // the pointer designates that sub-object.
+                                    if let Some(q) = self.sub_object_of_view(st, &p, *inner) {
+                                        return Ok(V::Ref(q));
+                                    }
                                     return Err(format!("bad view: {:?} as larger {:?}", cur, inner));
                                 }
                                 if self.leaf_count(cur) == self.leaf_count(*inner) {
@@ -2492,6 +2550,10 @@ impl<'tcx> Cx<'tcx> {
             || name.starts_with("core::slice::index")
             || name == "core::ops::index::Index::index" && cargs.len() > 0 && matches!(cargs[0].expect_ty().kind(), ty::Slice(_) | ty::Array(..)) && !matches!(argv.get(1), Some(V::Int(_)))
             || name == "core::ops::index::IndexMut::index_mut" && cargs.len() > 0 && matches!(cargs[0].expect_ty().kind(), ty::Slice(_) | ty::Array(..)) && !matches!(argv.get(1), Some(V::Int(_)));
+        // approx's comparators and default tolerances on a primitive scalar stay symbols, exactly as they are for a generic scalar:
+        // they are the atoms the properties are stated in (their bit-level implementations are not the crate under analysis)
+        let always_opaque = always_opaque
+            || ((name.starts_with("approx::abs_diff_eq::AbsDiffEq::") || name.starts_with("approx::relative_eq::RelativeEq::") || name.starts_with("approx::ulps_eq::UlpsEq::")) && cargs.len() > 0 && cargs[0].as_type().map(|t| t.is_floating_point() || t.is_integral()).unwrap_or(false));
         let resolved = if always_opaque {
             None
         } else {
